@@ -39,7 +39,7 @@ def _mc(chk, sc):
         write_cfg(cfg, spec="Spec", invariants=invs, properties=props,
                   constants={"NN": nn, "SelfLoops": "TRUE" if selfloops else "FALSE"})
         return nn, run_tlc(os.path.join(AREA, "DepsOrderMC.tla"), cfg, workers=workers, coverage=True,
-                           timeout=2400, metadir=os.path.join(sc.sub("meta"), "mc%d" % nn))
+                           timeout=2400 if nn <= 4 else 7200, metadir=os.path.join(sc.sub("meta"), "mc%d" % nn))
 
     results = run_parallel([lambda a=a: one(*a) for a in plan], nproc=2)
     cover = {}
